@@ -6,6 +6,9 @@
      Spec.v  : the plain reference model written from RFC 3501/4315/6851
                (mailbox = list of messages, positions, direct effects); spec_step /
                spec_run;  abs forgets the session's view.
+     Told.v  : the reference for a session that is not alone (other connections change
+               the mailbox between its commands, labels LExt of Model.v): sets are read in
+               what the session has been told, effects are one step by UID;  t_step / t_run_l.
    [Inv] (SimBase.v): UIDs of every mailbox ascend, are positive and below the
    UID counter; the session's view is the selected mailbox's message list (what
    update_selected leaves after every command); for maildir all folders share one
